@@ -196,8 +196,13 @@ class NewPoint(_Ed):
         out = H.var(self.point_type, '*out')
         return dict(args=[out, H.bytes(x, 'x', 32), H.bytes(y, 'y', 32), H.sym('modsize'), H.null], out=out)
 
-    def early_exit(self, op):
-        return [k for k, v in op.items() if k == '32 == modsize' and not v]
+    def ensures_all(self, pvs):
+        ok = [pv for pv in pvs if pv.ret_is_zero() and not pv.failed() and pv.zero_facts()]
+        no = [pv for pv in pvs if pv.ret_is_zero() is False and not pv.failed() and pv.nonzero_facts()]
+        yield Holds('accepting_path_exists', 'some path runs the curve test and accepts (the per-path obligations are not vacuous)', bool(ok),
+                    'no path accepts after a successful comparison: every point is refused', witness={'note': 'any point of the curve, e.g. the base point'})
+        yield Holds('refusing_path_exists', 'some path runs the curve test and refuses', bool(no),
+                    'no path refuses after a failed comparison', witness={'note': 'any off-curve pair (x, y)'})
 
     def oom_replay(self, pv, clause):
         return None
@@ -217,7 +222,8 @@ class NewPoint(_Ed):
         zf, nz = pv.zero_facts(), pv.nonzero_facts()
         r0 = pv.ret_is_zero()
         failed = pv.failed()
-        early = self.early_exit(op)
+        # argument-validation exits: no field comparison happened, the function refuses, and some test on the opaque arguments was made
+        early = [('' if v else 'not ') + k for k, v in op.items() if not k.startswith('FAIL ')] if (not zf + nz and r0 is False) else []
         ptr = pv.scalar(env['out'])
         if failed or early:
             why = (failed + early)[0]
